@@ -183,52 +183,55 @@ def h_crash(ctx):
 
 # ---------------------------------------------------------------- two concurrent writers of one cache file
 def h_interleave(ctx):
-    """two request_profile calls on one client receive profiles A (la bytes) and B (lb bytes) and write the cache
-    concurrently: each writer does open('wb') [truncate], write at its own offset 0, close.  The schedule is symbolic."""
+    """two request_profile calls THROUGH ONE CLIENT, as ofxget's scan does from two threads, receive profiles A (la bytes)
+    and B (lb bytes).  The write-side steps of each call (file operations with the paths the real code uses, the thread
+    identity being stubbed per writer) are extracted on every run and interleaved under a symbolic schedule on a file model."""
+    import threading
     la = ctx.int("len_a", 1, 1000)
     lb = ctx.int("len_b", 1, 1000)
-    # extract the write-side steps of one call from the real code
     log = []
     fs, client = setup(ctx, log)
-    one_call(ctx, client, log, Profile("http://s1", datetime.datetime(2020, 1, 5, 12, tzinfo=utils.UTC), "A"))
-    steps = [e[0] for e in log if e[0] in ("open", "write", "replace") and (e[0] != "open" or "w" in e[2])]
-    ctx.observe("steps", steps)
+    who_now = ["A"]
+    ctx.stub(threading, "get_ident", lambda: {"A": 1001, "B": 2002}[who_now[0]])
+    steps = {}
+    for who in ("A", "B"):
+        who_now[0] = who
+        del log[:]
+        fs.files.clear()
+        one_call(ctx, client, log, Profile("http://s1", datetime.datetime(2020, 1, 5, 12, tzinfo=utils.UTC), who))
+        steps[who] = [(e[0], e[1], e[2] if len(e) > 2 else None) for e in log
+                      if e[0] in ("open", "write", "replace") and (e[0] != "open" or "w" in e[2])]
+    ctx.observe("steps", [(op, path) for op, path, _ in steps["A"]])
+    key = cache_key("O", "F")
+    files = {}                       # path -> list of (owner, length) segments from offset 0
     na = nb = 0
-    # file content model: list of (owner, length) segments from offset 0; temp files are private to each writer
-    content = None
-    tmp = {"A": None, "B": None}
-    n = len(steps)
+    n = len(steps["A"])
+    failed = None
     for k in range(2 * n):
-        if na < n and (nb >= n or ctx.bool(f"sched{k}")):
+        if na < n and (nb >= len(steps["B"]) or ctx.bool(f"sched{k}")):
             who, i = "A", na
             na += 1
         else:
             who, i = "B", nb
             nb += 1
         ln = la if who == "A" else lb
-        op = steps[i]
-        in_place = "replace" not in steps
+        op, path, arg = steps[who][i]
         if op == "open":
-            if in_place:
-                content = []
-            else:
-                tmp[who] = []
+            files[path] = []                                   # open('wb') truncates
         elif op == "write":
-            if in_place:
-                # overwrite from offset 0: keeps the tail of what another writer put there beyond our length
-                tail = []
-                for owner, seg in (content or []):
-                    if owner != who and seg > ln:
-                        tail = [(owner, seg - ln)]
-                content = [(who, ln)] + tail
-            else:
-                tmp[who] = [(who, ln)]
+            tail = []
+            for owner, seg in files.get(path, []):
+                if owner != who and seg > ln:
+                    tail = [(owner, seg - ln)]                  # the other writer's bytes beyond our length survive
+            files[path] = [(who, ln)] + tail
         elif op == "replace":
-            content = tmp[who]
-    whole = content is not None and len(content) == 1
-    if ctx.known("C15-cache-written-in-place", not whole):
-        return
-    ctx.check("concurrent writers never leave mixed content in the cache", whole)
+            if path not in files:
+                failed = "FileNotFoundError"                   # the other writer already renamed the shared file away
+            else:
+                files[arg] = files.pop(path)
+    content = files.get(key)
+    whole = content is not None and len(content) == 1 and failed is None
+    ctx.check("concurrent writers never leave mixed content in the cache, and neither request fails", whole)
 
 
 # ---------------------------------------------------------------- cache ownership
